@@ -22,11 +22,12 @@ CASES = ['none', 'camelCase', 'PascalCase', 'snake_case', 'TRAIN_CASE']
 
 FEATURES = (
     "closed feature set of generated programs: enums, flags (ordinary / none / all), records (fields of primitive, "
-    "collection, enum, flags, record, optional types; optionally +cpp/+java/+objc/+cppcli base records in the C02 stream), "
+    "collection, enum, flags, record, optional types; optionally +cpp/+java/+objc/+cppcli base records in the C02 stream; in the C07 "
+    "`tgt` stream records / interfaces / named functions with every list of target keys, in every spelling), "
     "interfaces (+cpp, -cpp, unflagged; static methods only on +cpp; const; async with a return type; throws with error "
     "domains of the same namespace), named functions (±cpp, with parameters/returns of data types), inline function "
     "parameters on interface methods (over built-ins; in the C07 streams also over user types of an enclosing namespace, spelled "
-    "unqualified, with identifiers of every character-class shape: digit→letter, letter→digit, lower→upper, `__`), error domains (codes with primitive/enum/optional parameters), namespaces up to "
+    "unqualified, with identifiers of every character-class shape: digit→letter, letter→digit, lower→upper, `__`), error domains (codes with primitive/enum/optional parameters; in the C02 stream every second program up to 4 parameters of collection / flags / record types too), namespaces up to "
     "depth 2 with program-wide unique declaration names (also for anonymous functions: unique signatures), generic nesting up to 3; "
     "identifiers outside all target keyword lists; no deriving, no @extern/@import, "
     "no self-referential function types, no async method without return type (DESIGN §9 rows 8-13, 38-57)"
@@ -348,11 +349,108 @@ def render(decls) -> str:
     return '\n'.join(lines) + '\n'
 
 
+
+# --------------------------------------------------------------------------------------------------------
+# target lists (`record +cpp`, `interface +objc +cppcli`, `function -cpp -java`, …)
+# --------------------------------------------------------------------------------------------------------
+
+TARGET_KEYS = ['cpp', 'cppcli', 'java', 'objc', 'yaml']     # `API().generation_targets` (the parser accepts every supported key)
+
+
+def effective_targets(flags: str, keys=TARGET_KEYS) -> list[str]:
+    """`Parser.visitTargets`: the `+x` (or all, for `+any` / exclusions only) minus the `-x`; [] = nothing written or all excluded"""
+    toks = flags.split()
+    inc, exc = (list(keys) if '+any' in toks else []), []
+    for t in toks:
+        if t == '+any':
+            continue
+        if t[0] == '+':
+            if t[1:] not in inc:
+                inc.append(t[1:])
+        else:
+            exc.append(t[1:])
+    if not inc and exc:
+        inc = list(keys)
+    return [k for k in inc if k not in exc]
+
+
+def target_subsets(keys=TARGET_KEYS) -> list[tuple]:
+    """every non-empty subset of the target keys, grouped round-robin by (cpp in it, java in it): any 4 consecutive entries hold
+    one list with neither, one with cpp only, one with java only, one with both (besides objc / cppcli / yaml)"""
+    subsets = [tuple(k for i, k in enumerate(keys) if m >> i & 1) for m in range(1, 2 ** len(keys))]
+    cls = {}
+    for s in subsets:
+        cls.setdefault(('cpp' in s, 'java' in s), []).append(s)
+    order = [(False, False), (True, False), (False, True), (True, True)]
+    out = []
+    for i in range(max(len(v) for v in cls.values())):
+        for c in order:
+            out.append(cls[c][i % len(cls[c])])
+    return out
+
+
+def spell_targets(r: random.Random, subset, keys=TARGET_KEYS) -> str:
+    """one of the spellings of a target list: `+a +b` (any order, repetitions), `-c -d`, `+any -c`, `+a +b +c -c`"""
+    subset = list(subset)
+    rest = [k for k in keys if k not in subset]
+    forms = ['plus', 'plus', 'dup', 'mixed'] + (['minus', 'any'] if rest else ['any'])
+    form = r.choice(forms if subset else ['cancel'])
+    plus = lambda l: ' '.join('+' + k for k in l)
+    minus = lambda l: ' '.join('-' + k for k in l)
+    sh = r.sample(subset, len(subset))
+    if form == 'plus':
+        s = plus(sh)
+    elif form == 'dup':
+        s = plus(sh + [r.choice(sh)])
+    elif form == 'mixed' and rest:
+        x = r.choice(rest)
+        s = plus(sh + [x]) + ' ' + minus([x])
+    elif form == 'minus':
+        s = minus(r.sample(rest, len(rest)))
+    elif form == 'any':
+        s = ('+any ' + minus(rest)).strip()
+    elif form == 'cancel':
+        x = r.choice(keys)
+        s = f'+{x} -{x}'
+    else:
+        s = plus(sh)
+    assert sorted(effective_targets(s, keys)) == sorted(subset), (s, subset)
+    return s
+
+
+class TargetRotation:
+    """target lists for the declarations of a stream of programs: walks `target_subsets()` from a seed-dependent offset (one walk per
+    declaration kind), so that a handful of programs meets every class of list; spelling at random"""
+
+    def __init__(self, r: random.Random, plain_p=0.2, java_record_p=1.0):
+        self.r = r
+        self.subsets = target_subsets()
+        self.pos = {k: r.randrange(len(self.subsets)) for k in ('record', 'interface', 'function')}
+        self.plain_p = plain_p
+        # `record +java`: Java declares `<Name>Base`, the class `<Name>` is the user's to write (the generated Java alone does not
+        # compile): streams judged by javac keep such records rare
+        self.java_record_p = java_record_p
+
+    def next(self, kind: str) -> tuple[str, list[str]]:
+        """(written flags, effective list); records: [] = an ordinary record; interfaces / functions: nothing written = all keys"""
+        if self.r.random() < self.plain_p:
+            flags = '' if self.r.random() < 0.7 else spell_targets(self.r, [])
+        else:
+            while kind == 'record' and 'java' in self.subsets[self.pos[kind] % len(self.subsets)] and self.r.random() >= self.java_record_p:
+                self.pos[kind] += 1
+            flags = spell_targets(self.r, self.subsets[self.pos[kind] % len(self.subsets)])
+            self.pos[kind] += 1
+        eff = effective_targets(flags)
+        if kind != 'record' and not eff:
+            eff = list(TARGET_KEYS)
+        return flags, eff
+
+
 class ProgGen:
     """Random valid programs inside the closed feature set."""
 
     def __init__(self, r: random.Random, java_compiles=False, base_records=False, max_decls=9, names=None, inline_user_types=False,
-                 inline_p=0.12, user_p=0.35, async_p=0.2, min_methods=0, member_names=None):
+                 inline_p=0.12, user_p=0.35, async_p=0.2, min_methods=0, member_names=None, target_lists=None, rich_codes=False):
         self.r = r
         self.java_compiles = java_compiles      # C07: stay inside what javac accepts (throws only same namespace, …)
         self.base_records = base_records
@@ -366,6 +464,12 @@ class ProgGen:
         self.async_p = async_p
         self.min_methods = min_methods
         self.used_fn_sigs = set()
+        # `TargetRotation`: records / interfaces / named functions get target lists from the whole lattice of lists (default: the
+        # few lists of the older streams, drawn from `r`)
+        self.target_lists = target_lists
+        # error codes with up to 4 parameters of primitive, optional, collection, enum, flags and record types (default: 0-2 parameters
+        # of primitive / enum types)
+        self.rich_codes = rich_codes
 
     def members(self, n):
         return self.r.sample(self.member_names, n)
@@ -418,28 +522,41 @@ class ProgGen:
             elif kind == 'record':
                 earlier = [x for x in decls if x['kind'] in ('enum', 'flags', 'record')]
                 d['fields'] = [(m, self.dtype(earlier)) for m in self.members(r.randint(0, 4))]
-                if self.base_records and r.random() < 0.3:
+                if self.target_lists is not None:
+                    d['flags'], d['targets'] = self.target_lists.next('record')
+                elif self.base_records and r.random() < 0.3:
                     d['flags'] = r.choice(['+cpp', '+java', '+objc', '+cppcli', '+cpp +java'])
             elif kind == 'error':
                 earlier = [x for x in decls if x['kind'] == 'enum']
-                d['codes'] = [{'name': cn, 'params': [(pn, self.dtype(earlier, depth=2, kinds=('enum',))) for pn in self.members(r.randint(0, 2))]}
-                              for cn in self.members(r.randint(1, 3))]
+                if self.rich_codes:
+                    earlier = [x for x in decls if x['kind'] in ('enum', 'flags', 'record')]
+                    d['codes'] = [{'name': cn, 'params': [(pn, self.dtype(earlier, depth=1)) for pn in self.members(r.choice([0, 1, 1, 2, 3, 4]))]}
+                                  for cn in self.members(r.randint(1, 4))]
+                else:
+                    d['codes'] = [{'name': cn, 'params': [(pn, self.dtype(earlier, depth=2, kinds=('enum',))) for pn in self.members(r.randint(0, 2))]}
+                                  for cn in self.members(r.randint(1, 3))]
                 d['ns'] = shared_ns
             elif kind == 'function':
                 earlier = [x for x in decls if x['kind'] in ('enum', 'flags', 'record', 'interface')]
                 d['flags'] = r.choice(['', '', '+cpp', '-cpp'])
+                if self.target_lists is not None:
+                    d['flags'], d['targets'] = self.target_lists.next('function')
                 d['params'] = [(pn, self.dtype(earlier, kinds=('enum', 'flags', 'record', 'interface'))) for pn in self.members(r.randint(0, 3))]
                 d['ret'] = self.dtype(earlier, kinds=('enum', 'flags', 'record')) if r.random() < 0.5 else None
             elif kind == 'interface':
                 earlier = [x for x in decls if x['kind'] != 'error']
                 errs = [x for x in decls if x['kind'] == 'error']
                 d['flags'] = r.choice(['+cpp', '+cpp', '-cpp', ''])
+                cpp_only = d['flags'] == '+cpp'
+                if self.target_lists is not None:
+                    d['flags'], d['targets'] = self.target_lists.next('interface')
+                    cpp_only = d['targets'] == ['cpp']       # `static` is accepted on interfaces implemented in C++ alone
                 if errs:
                     d['ns'] = shared_ns
                 ms = []
                 for mn in self.members(r.randint(self.min_methods, 4)):
                     m = {'name': mn}
-                    if d['flags'] == '+cpp' and r.random() < 0.25:
+                    if cpp_only and r.random() < 0.25:
                         m['static'] = True
                     elif r.random() < 0.2:
                         m['const'] = True
